@@ -25,6 +25,9 @@ type C15Case struct {
 	Cfg    model.MetaCfg `json:"cfg"`
 	Target string        `json:"target,omitempty"` // file | dir | empty | foreign-ext | nested-missing-dir
 	WithP  bool          `json:"with_p,omitempty"`
+	// Elsewhere: the config file lives in another directory than the working directory and the
+	// target is given relative to the working directory
+	Elsewhere bool `json:"config_elsewhere,omitempty"`
 }
 
 var extOf = map[string]string{"deb": ".deb", "rpm": ".rpm", "apk": ".apk", "ipk": ".ipk", "archlinux": ".pkg.tar.zst"}
@@ -48,10 +51,10 @@ func init() {
 		Enumerate: func(env *engine.Env, yield func(any) bool) {
 			for _, f := range Formats {
 				for _, arch := range append(append([]string{}, c02Arches...), "OVERRIDE") {
-					for _, v := range []string{"1.2.3", "v1.2.3"} {
+					for _, v := range []string{"1.2.3", "v1.2.3", "1.2.3+git-abc123"} {
 						for _, epoch := range []string{"", "2"} {
 							for _, pre := range []string{"", "beta1", "rc-2"} {
-								for _, meta := range []string{"", "git"} {
+								for _, meta := range []string{"", "git", "2024-01-05"} {
 									for _, rel := range []string{"", "3"} {
 										for _, schema := range []string{"", "none"} {
 											c := baseMeta()
@@ -83,6 +86,12 @@ func init() {
 							c.Prerelease = pre
 							c.Release = "2"
 							if !yield(C15Case{Part: "cli", Format: f, Cfg: c, Target: tg, WithP: wp}) {
+								return
+							}
+						}
+						if tg == "file" || tg == "dir" || tg == "empty" {
+							c := baseMeta()
+							if !yield(C15Case{Part: "cli", Format: f, Cfg: c, Target: tg, WithP: wp, Elsewhere: true}) {
 								return
 							}
 						}
@@ -247,6 +256,10 @@ func checkC15(env *engine.Env, ci any) engine.Outcome {
 	}
 	defer os.RemoveAll(work)
 	cfgPath := filepath.Join(work, "nfpm.yaml")
+	if c.Elsewhere {
+		os.Mkdir(filepath.Join(work, "cfgdir"), 0o755)
+		cfgPath = filepath.Join(work, "cfgdir", "nfpm.yaml")
+	}
 	os.WriteFile(cfgPath, []byte(text), 0o644)
 	os.Mkdir(filepath.Join(work, "outdir"), 0o755)
 	// the library's own answer for the conventional name (judged against metadata in part "name")
@@ -287,6 +300,15 @@ func checkC15(env *engine.Env, ci any) engine.Outcome {
 		wantPath, wantFail = target, true
 	}
 	args := []string{"package", "-f", cfgPath}
+	if c.Elsewhere {
+		// config by relative path, target relative to the working directory
+		args = []string{"package", "-f", filepath.Join("cfgdir", "nfpm.yaml")}
+		if target != "" {
+			if r, err := filepath.Rel(work, target); err == nil {
+				target = r
+			}
+		}
+	}
 	if target != "" {
 		args = append(args, "-t", target)
 	}
@@ -303,13 +325,14 @@ func checkC15(env *engine.Env, ci any) engine.Outcome {
 	var created []string
 	filepath.Walk(work, func(pth string, fi os.FileInfo, err error) error {
 		if err == nil && !fi.IsDir() && pth != cfgPath {
+			_ = 0
 			rel, _ := filepath.Rel(work, pth)
 			created = append(created, rel)
 		}
 		return nil
 	})
 	sort.Strings(created)
-	out.Key = fmt.Sprintf("%s:%s:%v:exit=%v:%v", f, c.Target, c.WithP, runErr != nil, created)
+	out.Key = fmt.Sprintf("%s:%s:%v:%v:exit=%v:%v", f, c.Target, c.WithP, c.Elsewhere, runErr != nil, created)
 	if wantFail {
 		if runErr == nil {
 			viol("cli:should-fail:"+c.Target+":"+f, "nfpm %v exited 0; expected an error (stdout %q)", args, so.String())
